@@ -4,7 +4,8 @@ reference-format tables)."""
 import ast
 
 from ..engine import rule
-from ..flow import PRUNE, Violation, explore, if_branches, implied_atoms, \
+from ..flow import PRUNE, Violation, explore, if_branches, \
+    ifs_with_following, implied_atoms, \
     path_ends, \
     path_is, prov_has, provenance
 from ..model import dotted, walk_local
@@ -206,11 +207,9 @@ def r2(R):
             f = R.method(R.prog.cls(q), name)
         R.instance(f.short)
         ok = False
-        for x in walk_local(f.node):
-            if not isinstance(x, ast.If):
-                continue
+        for x, following in ifs_with_following(f.node):
             # the block entered when `isinstance(<x>, bytes)` is false
-            for atoms, block in if_branches(x):
+            for atoms, block in if_branches(x, following):
                 tested = [ast.dump(e.args[0]) for e, truth in atoms
                           if isinstance(e, ast.Call) and isinstance(
                               e.func, ast.Name) and e.func.id == 'isinstance'
